@@ -64,18 +64,20 @@ class CreateJob(ASTNode):
         return out_str
 
     def get_string(self, *args, **kwargs):
+        # START / END / EVERY hold plain texts: printed like any string constant (quotes and backslashes escaped)
+        from mindsdb_sql.parser.ast.select.constant import Constant
 
         start_str = ''
         if self.start_str is not None:
-            start_str = f" START '{self.start_str}'"
+            start_str = f" START {Constant(self.start_str).to_string()}"
 
         end_str = ''
         if self.end_str is not None:
-            end_str = f" END '{self.end_str}'"
+            end_str = f" END {Constant(self.end_str).to_string()}"
 
         repeat_str = ''
         if self.repeat_str is not None:
-            repeat_str = f" EVERY '{self.repeat_str}'"
+            repeat_str = f" EVERY {Constant(self.repeat_str).to_string()}"
 
         if_query_str = ''
         if self.if_query_str is not None:
